@@ -452,6 +452,7 @@ fn gen_page(r: &mut Rng) -> PageModel {
             let depth = if r.chance(1, 3) { 2 } else { 1 };
             let mut inner_ref: Option<(String, u32, f64)> = None;
             let mut total_h = 0.0;
+            let same_name_as_child = depth > 1 && !xobjects.iter().any(|(n, _)| n == "Sub") && r.bool();
             for d in (1..=depth).rev() {
                 let names = scope_names(r, &fonts, "F");
                 let sc = Scope { fonts: &fonts, names: names.clone(), ctx: format!("form_depth{d}") };
@@ -486,7 +487,11 @@ fn gen_page(r: &mut Rng) -> PageModel {
                 }
                 let res = format!("<< /Font {} {xo} >>", font_res(&names, &fonts));
                 let fo = pdf.add_stream(&format!("/Type /XObject /Subtype /Form /BBox [0 -20 612 792] /Resources {res}"), &body);
-                inner_ref = Some((format!("Fm{bi}d{d}"), fo, h));
+                // XObject names are local to a resource dictionary: the nested form is called "Sub" under
+                // every parent (different forms, same name), and the outermost form is sometimes also called
+                // "Sub" on the page, so that one name means different forms in nested scopes
+                let nm = if d > 1 || same_name_as_child { "Sub".to_string() } else { format!("Fm{bi}") };
+                inner_ref = Some((nm, fo, h));
                 total_h = h;
             }
             let (n, o, _) = inner_ref.unwrap();
@@ -510,7 +515,10 @@ fn gen_page(r: &mut Rng) -> PageModel {
     let contents_ref = if split {
         // the content divided into two streams at a line boundary between operators
         let mid = content[..content.len() / 2].iter().rposition(|b| *b == b'\n').map(|p| p + 1).unwrap_or(0);
-        let a = pdf.add_stream("", &content[..mid]);
+        // the streams of a /Contents array form one stream with the boundary acting as white space
+        // (ISO 32000-1 7.8.2): half of the time the first part ends right after its last operator
+        let first_end = if mid > 0 && r.bool() { mid - 1 } else { mid };
+        let a = pdf.add_stream("", &content[..first_end]);
         let b = pdf.add_stream("", &content[mid..]);
         format!("[{a} 0 R {b} 0 R]")
     } else {
